@@ -1105,8 +1105,13 @@ void simk_end(const char *why, int sig)
 {
 	static int ending;
 
-	if (ending++)
+	if (ending++) {
+		/* another thread is already writing the trace out: give it the time to finish
+		 * (it ends the process), do not cut it off */
+		struct timespec ts = { 3, 0 };
+		nanosleep(&ts, NULL);
 		_exit(0);
+	}
 	tr("\"e\":\"End\",\"why\":\"%s\",\"sig\":%d,\"now\":[%lld,%lld]}", why, sig, TS(vnow));
 	if (ndec && simk_log_dec) {
 		/* scheduling decisions (chosen thread, bit mask of enabled threads) */
